@@ -68,7 +68,7 @@ class Unit:
     def __init__(self, name, props, backend, parts, csig, spec, xform=None, compose=None, aux=(),
                  enforce=None, rec=False, replace='auto', no_replace=(), loops=None, defines=(),
                  cbmc_flags=(), harness=None, fire=None, replay=(), smt=None, timeout=None,
-                 bounded=None, unwind=None, extra_c='', pre_c='', notes='', max_fail_labels=None, must_contain=(), trusted=(), thorough_only=False, also_replace=()):
+                 bounded=None, unwind=None, extra_c='', pre_c='', notes='', max_fail_labels=None, must_contain=(), trusted=(), thorough_only=False, also_replace=(), also_replace_if_present=()):
         self.name, self.props, self.backend = name, list(props), backend
         self.parts = parts if isinstance(parts, list) else [parts]
         self.csig, self.spec = csig, spec if isinstance(spec, (list, tuple)) else [spec]
@@ -85,7 +85,7 @@ class Unit:
         self.unwind = unwind
         self.extra_c = extra_c; self.pre_c = pre_c; self.notes = notes
         self.aux = list(aux)
-        self.also_replace = list(also_replace)
+        self.also_replace = list(also_replace); self.also_replace_if_present = list(also_replace_if_present)
         self.must_contain = list(must_contain); self.trusted = list(trusted); self.thorough_only = thorough_only
 
 _header_cache = {}
@@ -257,7 +257,12 @@ def build_unit(unit, workdir):
             raise Drift("%s: rule %s fired %d times, expected [%d,%d]" % (unit.name, k, n, lo, hi))
     contract_fns = spec_contract_functions(spec_paths, unit.defines)
     if unit.replace == 'auto':
-        replace = sorted(((contract_fns & idents_called) | set(unit.also_replace)) - {unit.enforce} - unit.no_replace)
+        macro_called = set()
+        body_txt_all = body_txt
+        for nm in unit.also_replace_if_present:
+            # callee reached through a glue macro whose name is the upper-cased callee name
+            if re.search(r'\b%s\b' % nm.upper(), body_txt_all): macro_called.add(nm)
+        replace = sorted(((contract_fns & idents_called) | set(unit.also_replace) | macro_called) - {unit.enforce} - unit.no_replace)
     else:
         replace = list(unit.replace)
     return dict(cfile=cfile, infos=infos, fired=dict(F), replace=replace, n_loops=count_loops(all_tk))
